@@ -150,13 +150,6 @@ theorem NXActionConjunction.lenM_pure (v : V) : LenPure NXActionConjunction.lenM
   · obtain ⟨_, _, h⟩ := bind_ok_inv _ _ _ h
     exact (same_ok _ _ _ _ h).2
   · exact absurd h (by simp)
-theorem NXActionConnTrack.lenM_pure (v : V) : LenPure NXActionConnTrack.lenM v := by
-  intro l v1 h
-  unfold NXActionConnTrack.lenM at h
-  split at h
-  · obtain ⟨_, _, h⟩ := bind_ok_inv _ _ _ h
-    exact (same_ok _ _ _ _ h).2
-  · exact absurd h (by simp)
 theorem NXActionRegLoad.lenM_pure (v : V) : LenPure NXActionRegLoad.lenM v := by
   intro l v1 h
   unfold NXActionRegLoad.lenM at h
@@ -309,10 +302,10 @@ theorem NXActionCTNAT.lenM_not_pure :
 
 /-! ### the Action interface: Len() -/
 
-/-- Action.Len() leaves every action unchanged, except NXActionCTNAT -/
-theorem Action.lenM_pure (v : V) (hk : v.kind ≠ "NXActionCTNAT") : LenPure Action.lenM v := by
+/-- Len() of every kind except conntrack leaves the action unchanged, except NXActionCTNAT -/
+theorem Action.lenLeaf_pure (v : V) (hk : v.kind ≠ "NXActionCTNAT") : LenPure Action.lenLeaf v := by
   intro l v1 h
-  unfold Action.lenM at h
+  unfold Action.lenLeaf at h
   split at h
   · exact ActionHeader.lenM_pure v l v1 h
   · exact ActionOutput.lenM_pure v l v1 h
@@ -327,7 +320,6 @@ theorem Action.lenM_pure (v : V) (hk : v.kind ≠ "NXActionCTNAT") : LenPure Act
   · exact ActionSetField.lenM_pure v l v1 h
   · exact NXActionHeader.lenM_pure v l v1 h
   · exact NXActionConjunction.lenM_pure v l v1 h
-  · exact NXActionConnTrack.lenM_pure v l v1 h
   · exact NXActionRegLoad.lenM_pure v l v1 h
   · exact NXActionRegMove.lenM_pure v l v1 h
   · exact NXActionResubmit.lenM_pure v l v1 h
@@ -352,24 +344,101 @@ theorem NXActionCTNAT.lenM_kind (v : V) (l : UInt16) (v1 : V) (h : NXActionCTNAT
     cases h3; rfl
   · exact absurd h (by simp)
 
-/-- Len() never changes the dynamic type of an action -/
-theorem Action.lenM_kind (v : V) (l : UInt16) (v1 : V) (h : Action.lenM v = .ok (l, v1)) : v1.kind = v.kind := by
+theorem Action.lenLeaf_kind (v : V) (l : UInt16) (v1 : V) (h : Action.lenLeaf v = .ok (l, v1)) : v1.kind = v.kind := by
   by_cases hk : v.kind = "NXActionCTNAT"
   · have h' : NXActionCTNAT.lenM v = .ok (l, v1) := by
-      unfold Action.lenM at h; simp only [hk] at h; exact h
+      unfold Action.lenLeaf at h; simp only [hk] at h; exact h
     rw [hk]; exact NXActionCTNAT.lenM_kind v l v1 h'
-  · rw [Action.lenM_pure v hk l v1 h]
+  · rw [Action.lenLeaf_pure v hk l v1 h]
 
-/-- Action.Len() through the interface is idempotent for EVERY action: the second call returns the same size and
-    changes nothing more -/
-theorem Action.lenM_idem (v : V) : LenIdem Action.lenM v := by
+theorem Action.lenLeaf_idem (v : V) : LenIdem Action.lenLeaf v := by
   intro l v1 h
   by_cases hk : v.kind = "NXActionCTNAT"
   · have h' : NXActionCTNAT.lenM v = .ok (l, v1) := by
-      unfold Action.lenM at h; simp only [hk] at h; exact h
+      unfold Action.lenLeaf at h; simp only [hk] at h; exact h
     have hk1 := NXActionCTNAT.lenM_kind v l v1 h'
     have := NXActionCTNAT.lenM_idem v l v1 h'
-    unfold Action.lenM; simp only [hk1]; exact this
-  · exact (Action.lenM_pure v hk).idem l v1 h
+    unfold Action.lenLeaf; simp only [hk1]; exact this
+  · exact (Action.lenLeaf_pure v hk).idem l v1 h
+
+theorem NXActionConnTrack.lenWith_kind (sub : V → R (UInt16 × V)) (v : V) (l : UInt16) (v1 : V)
+    (h : NXActionConnTrack.lenWith sub v = .ok (l, v1)) : v1.kind = v.kind := by
+  unfold NXActionConnTrack.lenWith at h
+  split at h
+  · obtain ⟨_, _, h2⟩ := bind_ok_inv _ _ _ h
+    obtain ⟨_, _, h3⟩ := bind_ok_inv _ _ _ h2
+    obtain ⟨_, _, h4⟩ := bind_ok_inv _ _ _ h3
+    cases h4; rfl
+  · exact absurd h (by simp)
+
+/-- NXActionConnTrack.Len() sums the nested actions' current sizes and STORES the result in the header; a second call
+    finds the same sizes (given that holds for the nested actions) and stores the same length -/
+theorem NXActionConnTrack.lenWith_idem (sub : V → R (UInt16 × V)) (hsub : ∀ a, LenIdem sub a) (v : V) :
+    LenIdem (NXActionConnTrack.lenWith sub) v := by
+  intro l v1 h
+  unfold NXActionConnTrack.lenWith at h
+  split at h
+  · obtain ⟨⟨hl, h0⟩, hh, h2⟩ := bind_ok_inv _ _ _ h
+    obtain ⟨e1, e2⟩ := same_ok _ _ _ _ hh
+    subst e1; subst e2
+    obtain ⟨⟨ls, acts'⟩, hm, h3⟩ := bind_ok_inv _ _ _ h2
+    obtain ⟨h', hs, h4⟩ := bind_ok_inv _ _ _ h3
+    cases h4
+    have hm' := mapM2_idem sub _ _ _ (fun x _ a x' hx => hsub x a x' hx) hm
+    have hs' : NXActionHeader.setLength (n16 Gen.openflow13.NxActionHeaderLength + 14 + sum16 ls) h' = .ok h' := by
+      rw [(NXActionHeader.length_setLength _ _ _ hs).2 _, hs]
+    simp only [NXActionConnTrack.lenWith, NXActionHeader.lenM, same, Res.bind_ok, hm', hs']
+  · exact absurd h (by simp)
+
+theorem Action.lenD_kind : ∀ (d : Nat) (v : V) (l : UInt16) (v1 : V), Action.lenD d v = .ok (l, v1) → v1.kind = v.kind := by
+  intro d v l v1 h
+  cases d with
+  | zero => exact absurd h (by simp [Action.lenD])
+  | succ d =>
+    unfold Action.lenD at h
+    split at h
+    · exact NXActionConnTrack.lenWith_kind _ v l v1 h
+    · exact Action.lenLeaf_kind v l v1 h
+
+theorem Action.lenD_idem : ∀ (d : Nat) (v : V), LenIdem (Action.lenD d) v := by
+  intro d
+  induction d with
+  | zero => intro v l v1 h; exact absurd h (by simp [Action.lenD])
+  | succ d ih =>
+    intro v l v1 h
+    have hk1 := Action.lenD_kind _ v l v1 h
+    unfold Action.lenD at h ⊢
+    split at h
+    · rename_i hk
+      rw [hk] at hk1
+      simp only [hk1, if_true]
+      exact NXActionConnTrack.lenWith_idem _ ih v l v1 h
+    · rename_i hk
+      rw [if_neg (by rw [hk1]; exact hk)]
+      exact Action.lenLeaf_idem v l v1 h
+
+/-- Len() never changes the dynamic type of an action -/
+theorem Action.lenM_kind (v : V) (l : UInt16) (v1 : V) (h : Action.lenM v = .ok (l, v1)) : v1.kind = v.kind :=
+  Action.lenD_kind _ v l v1 h
+
+/-- Action.Len() through the interface is idempotent for EVERY action: the second call returns the same size and
+    changes nothing more -/
+theorem Action.lenM_idem (v : V) : LenIdem Action.lenM v := Action.lenD_idem _ v
+
+theorem Action.lenD_succ_ct (d : Nat) (v : V) (hk : v.kind = "NXActionConnTrack") :
+    Action.lenD (d + 1) v = NXActionConnTrack.lenWith (Action.lenD d) v := by
+  unfold Action.lenD; simp only [hk, if_true]
+theorem Action.lenD_succ_leaf (d : Nat) (v : V) (hk : v.kind ≠ "NXActionConnTrack") :
+    Action.lenD (d + 1) v = Action.lenLeaf v := by
+  rw [Action.lenD]; simp only [hk, if_false]
+
+/-- Action.Len() leaves every action unchanged, except NXActionCTNAT (rounds its stored length) and
+    NXActionConnTrack (stores the recomputed length) -/
+theorem Action.lenM_pure (v : V) (hk : v.kind ≠ "NXActionCTNAT") (hk2 : v.kind ≠ "NXActionConnTrack") :
+    LenPure Action.lenM v := by
+  intro l v1 h
+  unfold Action.lenM at h
+  rw [Action.lenD_succ_leaf _ v hk2] at h
+  exact Action.lenLeaf_pure v hk l v1 h
 
 end OFV.Model
